@@ -16,12 +16,49 @@ open Rbpf.JitSim
     value with `inClaim = true` (and the program has no eBPF-to-eBPF call and no F7 instruction), then every run of
     the compiled code's register-transfer semantics — from any values of r0, r2 … r9, with any values left in r1 … r5 by
     helper calls — returns the same value, leaves the same packet / metadata / registered ranges and makes the same
-    helper calls. -/
+    helper calls.
+    `hdisj`: the private stack shares no byte with the metadata buffer nor with the packet (no access of one byte or
+    more lies inside the stack and inside one of the other two).  It holds of real memory, where the three regions are
+    separate allocations; the model's `readBytes?` / `writeBytes?` would serve such an access from the metadata buffer
+    or the packet, not from the stack the tags speak about (witness without it: `mbuff = ⟨1504, 8 bytes⟩`,
+    `stack = ⟨1000, 512 bytes⟩`, `stx dw [r10-8], r2; mov r0, 0; exit` — accepted, yet the metadata buffer ends up
+    holding the undefined r2). -/
 theorem C03_taint_sound (env : Env) (m : Memory) (fuel : Nat) (ptrSlots patched : List Nat) (t : Taint.TState)
     (r0 : BitVec 64) (sfin : State)
     (hl : NoLocalCall env.prog) (h7 : NoF7 env.prog)
+    (hdisj : ∀ a w, 0 < w → m.stack.contains a w = true → m.mbuff.contains a w = false ∧ m.mem.contains a w = false)
     (hrun : Taint.run env ptrSlots patched fuel (Taint.init m) = (t, .done r0 sfin)) (hin : t.inClaim = true) :
     ClobIndep env m fuel :=
-  taint_clobIndep env m fuel ptrSlots patched t r0 sfin hl h7 hrun hin
+  taint_clobIndep env m fuel ptrSlots patched t r0 sfin hl h7 hdisj hrun hin
+
+/-- **machine code = interpreter on every case the checks call in-claim.**  `C03_x86_calls` with its semantic
+    independence hypothesis discharged by the taint run: for an accepted program without eBPF-to-eBPF calls and F7
+    instructions, covered opcodes, if the taint run of the interpreter model returns `r0` with `inClaim = true`, then the
+    emitter model's machine code, entered under the calling convention with any garbage in the registers the convention
+    does not fix and any garbage left by helpers in the caller-saved registers, returns `r0`, leaves packet / metadata /
+    registered ranges as the interpreter leaves them, makes the interpreter's helper calls in order with the stack
+    aligned, and restores the callee-saved registers. -/
+theorem C03_x86_inclaim (env : Env) (haddr : Nat → Option Nat) (um : Bool) (c : X86.Cfg) (locs : Array Nat) (ex : Nat)
+    (m : Memory) (σ : X86.St) (fuel : Nat) (ptrSlots patched : List Nat) (t : Taint.TState) (r0 : BitVec 64) (sfin : State)
+    (hacc : Verifier.check env.prog = .ok)
+    (hcomp : JitEmit.compileWithLayout env.prog haddr um false = .ok (c.code, locs, ex))
+    (hext : ExtOk c env haddr)
+    (hcov : CoveredC env.prog) (hl : NoLocalCall env.prog) (h7 : NoF7 env.prog)
+    (hbase : c.codeBase + c.code.size < 2 ^ 63)
+    (hsent : c.retSentinel.toNat < c.codeBase ∨ c.codeBase + c.code.size ≤ c.retSentinel.toNat)
+    (he : Entry c m σ) (hlog : σ.log = []) (halign : m.stack.base % 16 = 0)
+    (hpkt : m.mem.bytes.size = 0 → m.mem.base = 0) (hum : um = false → m.mbuff.bytes.size = 0)
+    (hdisj : ∀ a w, 0 < w → m.stack.contains a w = true → m.mbuff.contains a w = false ∧ m.mem.contains a w = false)
+    (hrun : Taint.run env ptrSlots patched fuel (Taint.init m) = (t, .done r0 sfin)) (hin : t.inClaim = true) :
+    ∃ k σ' s', Interp.run env (Interp.init m) fuel = .done r0 s' ∧
+      X86.run c σ k = .done r0 σ' ∧ DataRel σ'.mem s'.mem ∧
+      σ'.get 3 = σ.get 3 ∧ σ'.get 5 = σ.get 5 ∧ σ'.get 13 = σ.get 13 ∧ σ'.get 14 = σ.get 14 ∧ σ'.get 15 = σ.get 15 ∧
+      (σ'.get X86.RSP).toNat = (σ.get X86.RSP).toNat + 8 ∧
+      σ'.log.map (·.2) = s'.log.map (·.2) ∧ σ'.misaligned = σ.misaligned := by
+  have hindep := C03_taint_sound env m fuel ptrSlots patched t r0 sfin hl h7 hdisj hrun hin
+  have hint : Interp.run env (Interp.init m) fuel = .done r0 sfin := taint_run_interp env ptrSlots patched fuel (Taint.init m) t r0 sfin hrun
+  obtain ⟨k, σ', h⟩ := C03_x86_calls env haddr um c locs ex m σ fuel r0 sfin hacc hcomp hext hcov hl h7 hbase hsent he hlog halign
+    hpkt hum hindep hint
+  exact ⟨k, σ', sfin, hint, h⟩
 
 end Rbpf
